@@ -268,46 +268,17 @@ type c17RaceObs struct {
 
 func c17RaceDetector() c17RaceObs {
 	var o c17RaceObs
-	repo := os.Getenv("VERIF_REPO")
-	if repo == "" {
-		repo = "/repo"
-	}
 	goBin, err := exec.LookPath("go")
 	if err != nil {
 		o.Note = "go tool not found"
 		return o
 	}
-	tmp, err := os.MkdirTemp("", "c17race")
+	tmp, cleanup, err := c1719ScratchRepo("c17race")
 	if err != nil {
 		o.Note = err.Error()
 		return o
 	}
-	defer os.RemoveAll(tmp)
-	ents, err := os.ReadDir(repo)
-	if err != nil {
-		o.Note = err.Error()
-		return o
-	}
-	for _, e := range ents {
-		n := e.Name()
-		if e.IsDir() || strings.HasSuffix(n, "_test.go") || !(strings.HasSuffix(n, ".go") || n == "go.mod" || n == "go.sum") {
-			continue
-		}
-		b, err := os.ReadFile(filepath.Join(repo, n))
-		if err != nil {
-			o.Note = err.Error()
-			return o
-		}
-		if err := os.WriteFile(filepath.Join(tmp, n), b, 0o644); err != nil {
-			o.Note = err.Error()
-			return o
-		}
-	}
-	// internal packages of the module
-	if err := exec.Command("cp", "-r", filepath.Join(repo, "internal"), filepath.Join(tmp, "internal")).Run(); err != nil {
-		o.Note = "copying internal/: " + err.Error()
-		return o
-	}
+	defer cleanup()
 	if err := os.WriteFile(filepath.Join(tmp, "zz_verif_c17_race_test.go"), []byte(c17RaceTest), 0o644); err != nil {
 		o.Note = err.Error()
 		return o
@@ -317,7 +288,7 @@ func c17RaceDetector() c17RaceObs {
 	cmd := exec.CommandContext(ctx, goBin, "test", "-race", "-v", "-vet=off", "-count=1", "-run", "TestVerifC17Race", ".")
 	cmd.Dir = tmp
 	// the race detector needs cgo (the check's environment turns it off for its own builds)
-	cmd.Env = append(os.Environ(), "GOFLAGS=-mod=mod", "GOPROXY=off", "GOSUMDB=off", "GOTOOLCHAIN=local", "CGO_ENABLED=1")
+	cmd.Env = c1719GoEnv(true)
 	out, _ := cmd.CombinedOutput()
 	s := string(out)
 	i := strings.Index(s, "VERIF-C17-RACE ")
